@@ -125,7 +125,7 @@ def _solversim_check(prop: str, focus: str, profile_extra: Dict[str, Any], quick
 CHECKS = {
     "C01": _solversim_check("C01", "C01", {"derive_prob": 0.12, "derive_grammar_prob": 0.4}, 240, 12000, 100, 1800),
     "C02": _solversim_check("C02", "C02", {"unsat_prob": 0.45, "clock_op_prob": 0.22, "fault_bias": {"fault_free_prob": 0.2, "z3_slow": 5, "clk_jump_fwd": 3}, "derive_prob": 0.12, "derive_grammar_prob": 0.4}, 240, 12000, 100, 1800),
-    "C18": _solversim_check("C18", "C18", {"api_ops": True, "families": ["ambig", "ambig", "signed", "csv", "config"], "families_prob": 0.45}, 200, 8000, 110, 1800),
+    "C18": _solversim_check("C18", "C18", {"api_ops": True, "families": ["ambig", "ambig", "signed", "csv", "config", "nullable", "nullable", "nullable"], "families_prob": 0.55}, 200, 8000, 110, 1800),
 }
 
 
@@ -280,7 +280,9 @@ def _choice_check(prop: str, quick, thorough):
             b_choice, b_solver = budget * 0.5, budget * 0.5
         stages = [
             ("choicesim", {"focus": prop, "cases": cases}, n_choice, b_choice),
-            ("solversim", {"focus": prop, "derive_prob": 0.3, "derive_grammar_prob": 0.6}, n_solver, b_solver),
+            ("solversim", dict({"focus": prop, "derive_prob": 0.3, "derive_grammar_prob": 0.6},
+                               **({"families": ["signed", "signed", "config", "lenprefix", "expr", "csv"], "families_prob": 0.6} if prop == "C14" else {})),
+             n_solver, b_solver),
         ]
         return driver.run_check(
             prop, tier, stages, None, 0, 0, wall=240.0, nproc_total=nproc,
